@@ -1,6 +1,6 @@
 (* C16 - prelude functions and macros compute what their documentation says.
    Only statements; proofs in Eval/PreludeProofs.v. *)
-From PL Require Import Eval.EvalRules Eval.PreludeState Eval.PreludeProofs Eval.CatchProofs Eval.MacroProofs2 Eval.LengthProofs Eval.RangeProofs Eval.FoldProofs Eval.MapProofs Eval.ZipProofs Eval.LastProofs Eval.InitProofs Eval.FoldrProofs Eval.EnumerateProofs Eval.SumProofs Eval.CompareProofs Eval.MinusProofs Eval.DivideProofs Eval.ConcatProofs.
+From PL Require Import Eval.EvalRules Eval.PreludeState Eval.PreludeProofs Eval.CatchProofs Eval.MacroProofs2 Eval.LengthProofs Eval.RangeProofs Eval.FoldProofs Eval.MapProofs Eval.ZipProofs Eval.LastProofs Eval.InitProofs Eval.FoldrProofs Eval.EnumerateProofs Eval.SumProofs Eval.CompareProofs Eval.MinusProofs Eval.DivideProofs Eval.ConcatProofs Eval.UnzipProofs Eval.CaseProofs.
 From Coq Require Import ZArith.
 From Coq Require Import String.
 Local Open Scope string_scope.
@@ -229,3 +229,27 @@ Theorem C16_concat : forall vals ls st d, Forall2 (fun v l => list_to_vec v = So
                      list_to_vec r = Some (List.concat ls).
 Proof. exact concat_runs. Qed.
 Print Assumptions C16_concat.
+
+(* unzip-list on EVERY list of an even number of elements, and the macro let for EVERY number of bindings:
+   (let (a1 e1 .. an en) body) expands to ((lambda (a1 .. an) body) e1 .. en) - each value form occurs exactly once, in
+   order, the body once under the lambda; the expansion needs one level of recursion depth per binding *)
+Theorem C16_unzip_list : forall tl ps d st, is_nil tl = true -> (d + N.of_nat (List.length ps) + 5 <= MAXD)%N -> has_prelude st ->
+  exists fuel st', eval_loop fuel st uz_body (uz_env (flat ps tl)) pm d = (st', ROk (uzres ps)) /\ has_prelude st'.
+Proof. exact unzip_runs. Qed.
+Print Assumptions C16_unzip_list.
+
+Theorem C16_let_expansion : forall ps B, macro_expands_within (N.of_nat (List.length ps) + 8) (s "let") [flat ps VNil; B]
+  (VCons (vec_to_list [vsym "lambda"; vec_to_list (map fst ps); B]) (vec_to_list (map snd ps))).
+Proof. exact let_expansion. Qed.
+Print Assumptions C16_let_expansion.
+
+(* case for EVERY number of clauses: (case (c1 v1) .. (cn vn)) expands to (if c1 v1 (if c2 v2 .. (if cn vn nil))):
+   every condition and value form exactly once, in order, a value form only under its own condition *)
+Theorem C16_case_expansion : forall cls, Forall clause cls -> macro_expands_within 6 (s "case") cls (nested_ifs cls).
+Proof. exact case_expansion. Qed.
+Print Assumptions C16_case_expansion.
+
+Theorem C16_case_shape :
+  (forall x r, nested_ifs (x :: r) = vec_to_list [cs_if; cond_of x; value_of x; nested_ifs r]) /\ nested_ifs [] = nil_value /\
+  getv cs_if = VSym (Named (s "if")) /\ (forall c v r, clause (VCons c (VCons v r)) /\ cond_of (VCons c (VCons v r)) = c /\ value_of (VCons c (VCons v r)) = v).
+Proof. repeat split. eexists; eexists; eexists; reflexivity. Qed.
